@@ -235,6 +235,7 @@ impl Check for C17 {
         if !tape.is_empty() {
             ctx.stats.fault("call-history", 1);
         }
+        crate::c06::lend_siblings(&spec, hash_key);
         let found = realise_probed(&plan, hash_key, probes, |c| {
             let n_guess = match guarded_size(c) {
                 Some(WRes::Ok(n)) => n,
@@ -278,6 +279,8 @@ impl Check for C17 {
         if ctx.stats.wants_sample("single-write", idx) && spec.weight() < 50 {
             ctx.stats.sample("single-write", idx, || J::obj().set("scenario", 1).set("spec", spec.to_json()).set("capacities", "0..=n+8 in two worlds A and !A"));
         }
+
+        crate::ambient::unlend();
 
         // ---- scenario 2: arena history (every third episode)
         if idx % 3 == 0 {
